@@ -57,3 +57,11 @@ def is_timer_ev(ev, ca, delay):
 def is_send_pgn_ev(ev, ecu, dp, pf, ps, prio, sa):
     return (ev.fn == fn("ElectronicControlUnit.send_pgn") and ev.a0 == ecu and ev.a1 == dp and ev.a2 == pf
             and ev.a3 == ps and ev.a4 == prio and ev.a5 == sa)
+
+
+def inv_ecu(ecu):
+    # well-formed listener and timer records
+    return (forall(lambda j: has_key(ecu._subscribers[j], 'cb') and has_key(ecu._subscribers[j], 'dev_adr'), 0, len(ecu._subscribers))
+            and forall(lambda j: has_key(ecu._timer_events[j], 'callback') and has_key(ecu._timer_events[j], 'deadline')
+                       and has_key(ecu._timer_events[j], 'delta_time') and has_key(ecu._timer_events[j], 'cookie'),
+                       0, len(ecu._timer_events)))
